@@ -19,6 +19,7 @@ import (
 	"go.sia.tech/core/types"
 	"verif/internal/chaingen"
 	"verif/internal/harness"
+	"verif/internal/refmodel"
 )
 
 type tester struct {
@@ -502,6 +503,63 @@ func (t *tester) testCI(cs consensus.State, host types.V2FileContractElement, e 
 	}
 }
 
+// testCIProof: route 2 for chain index elements (see sample).
+func (t *tester) testCIProof(cs consensus.State, host types.V2FileContractElement, e types.ChainIndexElement) {
+	fc := host.V2FileContract
+	data := t.c.Files[fc.FileMerkleRoot]
+	build := func(ci types.ChainIndexElement) types.V2Transaction {
+		idx := cs.StorageProofLeafIndex(fc.Filesize, e.ChainIndex.ID, host.ID) // the honest index: forged elements keep the genuine block ID unless the mutation is about it
+		sp := &types.V2StorageProof{ProofIndex: ci}
+		if fc.Filesize > 0 {
+			sp.Leaf = refmodel.FileSegment(data, int(idx))
+			for _, h := range refmodel.Proof(refmodel.FileLeaves(data), int(idx)) {
+				sp.Proof = append(sp.Proof, types.Hash256(h))
+			}
+		}
+		return types.V2Transaction{FileContractResolutions: []types.V2FileContractResolution{{Parent: host.Copy(), Resolution: sp}}}
+	}
+	kind := "chainindex"
+	route := "ValidateV2Transaction/storage-proof-of-nonempty-contract"
+	if fc.Filesize == 0 {
+		route = "ValidateV2Transaction/storage-proof-of-empty-contract"
+	}
+	if err := consensus.ValidateV2Transaction(consensus.NewMidState(cs), build(e.Copy())); err != nil {
+		// the honest proof is not accepted here (e.g. historical leaf rules): route unusable for this contract
+		t.b.Count("ci_route2_unavailable:"+chaingen.NormErr(err), 1)
+		return
+	}
+	t.expect(kind, "none", true, route, true)
+	type mut struct {
+		name string
+		f    func(x *types.ChainIndexElement)
+	}
+	muts := []mut{
+		{"id", func(x *types.ChainIndexElement) { x.ID[3] ^= 1 }},
+	}
+	if fc.Filesize == 0 {
+		// with nothing to prove the block ID does not select a leaf, so a forged ID is judged by membership alone
+		muts = append(muts, mut{"chain-index-id", func(x *types.ChainIndexElement) { x.ChainIndex.ID[30] ^= 1 }})
+		muts = append(muts, mut{"never-created", func(x *types.ChainIndexElement) {
+			x.ID = types.BlockID{0xEE, 1}
+			x.ChainIndex.ID = x.ID
+			x.StateElement.LeafIndex = cs.Elements.NumLeaves + 5
+		}})
+	}
+	for _, sm := range t.seMuts(e.StateElement, t.otherSE(e.StateElement.LeafIndex), cs.Elements.NumLeaves) {
+		sm := sm
+		muts = append(muts, mut{sm.name, func(x *types.ChainIndexElement) { sm.f(&x.StateElement) }})
+	}
+	for _, m := range muts {
+		x := e.Copy()
+		m.f(&x)
+		if reflect.DeepEqual(x, e) {
+			continue
+		}
+		t.expect(kind, m.name, false, route, consensus.ValidateV2Transaction(consensus.NewMidState(cs), build(x.Copy())) == nil)
+	}
+	t.b.Count("ci_route2_contracts", 1)
+}
+
 // otherSE picks the state element of a different tracked element (any kind).
 func (t *tester) otherSE(notIndex uint64) *types.StateElement {
 	s := t.c.S
@@ -549,6 +607,25 @@ func (t *tester) sample(cs consensus.State) {
 		hh := uint64(t.rng.IntN(int(cs.Index.Height) + 1))
 		if ci, ok := s.CIEs[hh]; ok {
 			t.testCI(cs, host, ci.Copy(), t.otherSE(ci.StateElement.LeafIndex))
+		}
+		// route 2 for chain indices: a complete, honest storage proof of a live contract whose file is known,
+		// validated by ValidateV2Transaction with the genuine and with forged history elements. Empty contracts
+		// (nothing to prove) are preferred: there only the history proof decides.
+		var pick *types.V2FileContractElement
+		for _, id := range v2s {
+			e := s.V2FCEs[id]
+			fc := e.V2FileContract
+			data, have := t.c.Files[fc.FileMerkleRoot]
+			if _, haveIdx := s.CIEs[fc.ProofHeight]; !have || !haveIdx || uint64(len(data)) != fc.Filesize || fc.ProofHeight > cs.Index.Height {
+				continue
+			}
+			if pick == nil || (fc.Filesize == 0 && pick.V2FileContract.Filesize != 0) {
+				ec := e.Copy()
+				pick = &ec
+			}
+		}
+		if pick != nil && cs.Index.Height+1 >= t.c.Net.N.HardforkV2.AllowHeight {
+			t.testCIProof(cs, *pick, s.CIEs[pick.V2FileContract.ProofHeight].Copy())
 		}
 	}
 
